@@ -573,6 +573,8 @@ class DurationParser(object):
                     if "," in value:
                         value = value.replace(",", ".")
                     value = float(value)
+                    if value in (float("inf"), float("-inf")):
+                        raise ISO8601SyntaxError("duration", expression)
                 result_map[key] = value * sign_factor
             return data.Duration(**result_map)
         if expression.startswith("P") and sign_factor != -1:
